@@ -114,10 +114,13 @@ def random_theta(spec, rng, x, y_scale=1.0):
     raise ValueError(spec)
 
 
-def random_points(rng, n, d):
+def random_points(rng, n, d, far=False):
+    """far=True: the cloud sits 1e4..1e8 of its own extent away from the origin (time-stamps, frequencies, Julian dates)."""
     kind = rng.choice(["uniform", "normal", "grid_jitter", "clustered"])
     scale = 10.0 ** rng.uniform(-2, 2, size=d)
     shift = rng.normal(size=d) * scale * rng.choice([0, 1, 10])
+    if far:
+        shift = rng.choice([-1.0, 1.0], size=d) * scale * 10.0 ** rng.uniform(4, 8, size=d)
     if kind == "uniform":
         x = rng.uniform(-1, 1, size=(n, d))
     elif kind == "normal":
